@@ -212,17 +212,19 @@ pub mod dom {
     #[derive(Clone, Copy, PartialEq, Eq, Debug)] pub struct Element<'a> { pub id: u8, pub p: PhantomData<&'a ()> }
     #[derive(Clone, Copy, PartialEq, Eq, Debug)] pub enum ChildOfElement<'a> { Element(Element<'a>) }
     #[derive(Clone, Copy)] pub struct Document<'a>(pub PhantomData<&'a ()>);
-    /// fixed-capacity vector that derefs to a slice (what `children()` returns and `replace_children` takes)
-    pub struct KVec<T: Copy> { items: core::mem::MaybeUninit<[T; MAXC + 2]>, len: usize }
-    impl<T: Copy> KVec<T> {
+    /// fixed-capacity vector that derefs to a slice (what `children()` returns, `replace_children` takes, and the parser's stack)
+    pub struct KVec<T> { items: core::mem::MaybeUninit<[T; MAXC + 2]>, len: usize }
+    impl<T> KVec<T> {
         pub fn new() -> Self { KVec { items: core::mem::MaybeUninit::uninit(), len: 0 } }
         pub fn with_capacity(_n: usize) -> Self { Self::new() }
         pub fn push(&mut self, t: T) { assert!(self.len < MAXC + 2, "model vector overflow"); unsafe { (self.items.as_mut_ptr() as *mut T).add(self.len).write(t); } self.len += 1; }
+        pub fn pop(&mut self) -> Option<T> { if self.len == 0 { None } else { self.len -= 1; Some(unsafe { (self.items.as_ptr() as *const T).add(self.len).read() }) } }
     }
-    pub struct KIter<T: Copy> { v: KVec<T>, i: usize }
-    impl<T: Copy> Iterator for KIter<T> { type Item = T; fn next(&mut self) -> Option<T> { if self.i < self.v.len { let t = self.v[self.i]; self.i += 1; Some(t) } else { None } } }
-    impl<T: Copy> IntoIterator for KVec<T> { type Item = T; type IntoIter = KIter<T>; fn into_iter(self) -> KIter<T> { KIter { v: self, i: 0 } } }
-    impl<T: Copy> core::ops::Deref for KVec<T> { type Target = [T]; fn deref(&self) -> &[T] { unsafe { core::slice::from_raw_parts(self.items.as_ptr() as *const T, self.len) } } }
+    pub struct KIter<T> { v: KVec<T>, i: usize }
+    impl<T> Iterator for KIter<T> { type Item = T; fn next(&mut self) -> Option<T> { if self.i < self.v.len { let t = unsafe { (self.v.items.as_ptr() as *const T).add(self.i).read() }; self.i += 1; Some(t) } else { None } } }
+    impl<T> IntoIterator for KVec<T> { type Item = T; type IntoIter = KIter<T>; fn into_iter(self) -> KIter<T> { KIter { v: self, i: 0 } } }
+    impl<T> core::ops::Deref for KVec<T> { type Target = [T]; fn deref(&self) -> &[T] { unsafe { core::slice::from_raw_parts(self.items.as_ptr() as *const T, self.len) } } }
+    impl<T> core::ops::DerefMut for KVec<T> { fn deref_mut(&mut self) -> &mut [T] { unsafe { core::slice::from_raw_parts_mut(self.items.as_mut_ptr() as *mut T, self.len) } } }
     pub fn new_node(kind: u8) -> Element<'static> { unsafe { let id = NNODES; assert!(id < MAXN, "model DOM full"); NNODES += 1; KIND[id] = kind; NCH[id] = 0; Element { id: id as u8, p: PhantomData } } }
     impl<'a> Element<'a> {
         pub fn children(&self) -> KVec<ChildOfElement<'a>> {
